@@ -203,6 +203,17 @@ class Gen:
             raise Unsupported(ast.Constant("ir/_builder.py"),
                               f"ir/_builder.py changed (AST hash {h[:16]}..., pinned {BUILDER_PIN[:16]}...): the hand "
                               "reading of SourceBuilder in tools/py2coq/extra_append.py must be re-validated")
+        # names are resolved by identifier: an import that renames something would be misread
+        for tree, what in ((self.wsi_tree, "_write_sparse_ir.py"), (self.append_tree, "_append.py"),
+                           (self.bucket_tree, "_bucket.py")):
+            for node in ast.walk(tree):
+                if isinstance(node, (ast.Import, ast.ImportFrom)):
+                    for al in node.names:
+                        if al.asname is not None and al.asname != al.name and (al.name, al.asname) not in (
+                                ("ast", "ie_ast"), ("ast", "id"), ("ast", "ir"), ("os", "_os")):
+                            raise Unsupported(node, f"import that renames a name in {what}")
+                if isinstance(node, (ast.FunctionDef, ast.ClassDef)) and node.name in self.irclasses:
+                    raise Unsupported(node, f"definition in {what} that shadows an IR class")
         # ir/types.py singletons: integer = Integer()
         self.ty_single = {}
         for node in self.types_tree.body:
